@@ -597,3 +597,32 @@ pub fn levelcap(r: &mut Rng, count: usize, out: &mut Out) {
         with_width!(w, levelcap_case, w, &code, out);
     }
 }
+
+// ----------------------------------------------------------------------------------------- bcgen
+
+fn bcgen_case<C: CellType>(w: u32, code: &str, out: &mut Out) {
+    for &lvl in &[0u32, 1, 2, 3] {
+        let ir = match ir::Program::<C>::parse(code) {
+            Ok(p) => p.optimize(lvl),
+            Err(_) => return,
+        };
+        let text = encode_block(&ir);
+        for &(nregs, fuse) in &[(2usize, true), (11usize, false), (12usize, false), (3usize, true)] {
+            let bc = hpbf::bc::CodeGen::translate(&ir, nregs, fuse);
+            out.case(
+                &format!("bcgen {w} {nregs} {} {text}", if fuse { 1 } else { 0 }),
+                &encode_bc(&bc),
+            );
+            out.stat(&format!("regs{nregs}_fuse{fuse}"));
+        }
+    }
+}
+
+/// Exact tie of `bc::CodeGen::translate` against the Lean `BcGen.translate`.
+pub fn bcgen(r: &mut Rng, count: usize, out: &mut Out) {
+    for _ in 0..count {
+        let code = random_program(r, out);
+        let w = *r.pick(&WIDTHS);
+        with_width!(w, bcgen_case, w, &code, out);
+    }
+}
